@@ -72,6 +72,11 @@ type c27Monitor struct {
 	topSeen    bool
 }
 
+// c27Abort is panicked by the monitor to stop an execution that is about to
+// allocate an absurd amount of memory after a violation was recorded (a mutant
+// interpreter must not take the shared machine down). run() recovers it.
+type c27Abort struct{}
+
 func (m *c27Monitor) bad(format string, a ...any) {
 	if len(m.viol) < 5 {
 		m.viol = append(m.viol, fmt.Sprintf(format, a...))
@@ -396,7 +401,12 @@ func (m *c27Monitor) onOpcode(pc uint64, op byte, gas, cost uint64, scope tracin
 		need, ovf, lenOp = c27MemNeed(op, st)
 		if ovf {
 			m.bad("depth %d pc=%d %s: memory range overflows 64 bits but the step was accepted", depth, pc, ep.OpName(op))
-			need = 0
+			panic(c27Abort{})
+		}
+		if need > 0x1FFFFFFFE0 {
+			// beyond this size the quadratic term no longer fits 64 bits: no gas limit can pay for it
+			m.bad("depth %d pc=%d %s: accepted a memory size of %d bytes, beyond the range whose cost fits 64 bits", depth, pc, ep.OpName(op), need)
+			panic(c27Abort{})
 		}
 	}
 	if need > mem {
@@ -409,6 +419,9 @@ func (m *c27Monitor) onOpcode(pc uint64, op byte, gas, cost uint64, scope tracin
 			}
 		} else if bc.Cmp(exp) < 0 {
 			m.bad("depth %d pc=%d %s: memory %d -> %d bytes needs expansion gas %s, charged only %d", depth, pc, ep.OpName(op), mem, words(need)*32, exp, cost)
+		}
+		if len(m.viol) > 0 && need-mem > 1<<26 {
+			panic(c27Abort{})
 		}
 	} else if base, exact := m.exactBase(op, lenOp); exact && ep.Active(op, m.fork) && cost != base {
 		m.bad("depth %d pc=%d %s: no memory growth, cost must be %d, charged %d", depth, pc, ep.OpName(op), base, cost)
@@ -441,6 +454,8 @@ type c27Result struct {
 	err   error
 	panic string
 	db    *state.StateDB
+	// aborted: the monitor stopped the run after recording a violation
+	aborted bool
 }
 
 var c27ForkWeights = []int{3, 3, 3, 3, 4, 3, 4, 5, 6, 6, 4, 6, 9, 9, 10, 22}
@@ -563,6 +578,10 @@ func (cs *c27Case) run(base *state.StateDB, tracer *tracing.Hooks) (res c27Resul
 	res.db = db
 	defer func() {
 		if r := recover(); r != nil {
+			if _, ok := r.(c27Abort); ok {
+				res.aborted = true
+				return
+			}
 			res.panic = fmt.Sprintf("%v\n%s", r, debug.Stack())
 		}
 	}()
@@ -642,19 +661,20 @@ func c27Property(rt *rapid.T, st *vs.S) {
 		fmt.Fprintf(os.Stderr, "C27 case start: %s gas=%d resv=%d create=%v %s\n", cs.fork, cs.gas, cs.resv, cs.create, cs.world.Describe())
 		defer func() { fmt.Fprintf(os.Stderr, "C27 case done in %v\n", time.Since(t0)) }()
 	}
-	// 1. production path (no tracer)
-	r1 := cs.run(base, nil)
-	if msg := c27CheckTop(cs, r1, rules); msg != "" {
-		rt.Fatalf("C27 (untraced run): %s\n%s", msg, cs.dump())
-	}
-	// 2. monitored path
+	// 1. monitored path first: a violation stops here, before the unmonitored run could
+	// act on it (e.g. allocate unpaid memory)
 	mon := &c27Monitor{fork: cs.fork, amsterdam: rules.IsAmsterdam, rules: rules}
 	r2 := cs.run(base, mon.hooks())
+	if len(mon.viol) > 0 {
+		rt.Fatalf("C27 monitor: %d violation(s), first: %s\n%s", len(mon.viol), mon.viol[0], cs.dump())
+	}
 	if msg := c27CheckTop(cs, r2, rules); msg != "" {
 		rt.Fatalf("C27 (traced run): %s\n%s", msg, cs.dump())
 	}
-	if len(mon.viol) > 0 {
-		rt.Fatalf("C27 monitor: %d violation(s), first: %s\n%s", len(mon.viol), mon.viol[0], cs.dump())
+	// 2. production path (no tracer)
+	r1 := cs.run(base, nil)
+	if msg := c27CheckTop(cs, r1, rules); msg != "" {
+		rt.Fatalf("C27 (untraced run): %s\n%s", msg, cs.dump())
 	}
 	if len(mon.frames) != 0 {
 		rt.Fatalf("C27 monitor: %d frames left open\n%s", len(mon.frames), cs.dump())
@@ -758,14 +778,18 @@ func TestVerifC27Api(t *testing.T) {
 			ret  []byte
 			pan  string
 			kind = ep.Uniform(rt, "api", 2+1)
+			rls  = evmx.Rules(cs.fork)
+			mon  = &c27Monitor{fork: cs.fork, amsterdam: rls.IsAmsterdam, rules: rls}
 		)
 		func() {
 			defer func() {
 				if r := recover(); r != nil {
-					pan = fmt.Sprintf("%v\n%s", r, debug.Stack())
+					if _, ok := r.(c27Abort); !ok {
+						pan = fmt.Sprintf("%v\n%s", r, debug.Stack())
+					}
 				}
 			}()
-			cfg := cs.config(base.Copy(), nil)
+			cfg := cs.config(base.Copy(), mon.hooks())
 			switch kind {
 			case 0:
 				ret, _, err = Execute(cs.world.Contracts[0].Code, cs.input, cfg)
@@ -775,6 +799,9 @@ func TestVerifC27Api(t *testing.T) {
 				ret, _, left, err = Create(cs.world.Contracts[0].Code, cfg)
 			}
 		}()
+		if len(mon.viol) > 0 {
+			rt.Fatalf("C27 monitor (runtime API): %s\n%s", mon.viol[0], cs.dump())
+		}
 		if pan != "" {
 			rt.Fatalf("C27: runtime API panicked: %s\n%s", pan, cs.dump())
 		}
@@ -811,11 +838,11 @@ func FuzzVerifC27Bytes(f *testing.F) {
 		rules := evmx.Rules(fork)
 		mon := &c27Monitor{fork: fork, amsterdam: rules.IsAmsterdam, rules: rules}
 		r := cs.run(base, mon.hooks())
-		if msg := c27CheckTop(cs, r, rules); msg != "" {
-			t.Fatalf("C27: %s\n%s", msg, cs.dump())
-		}
 		if len(mon.viol) > 0 {
 			t.Fatalf("C27 monitor: %s\n%s", mon.viol[0], cs.dump())
+		}
+		if msg := c27CheckTop(cs, r, rules); msg != "" {
+			t.Fatalf("C27: %s\n%s", msg, cs.dump())
 		}
 	})
 }
